@@ -274,6 +274,60 @@ fn timed_expiry(rep: &Report) -> serde_json::Value {
     json!({"orders_judged": judged.into_inner(), "orders_not_judged_because_the_machine_was_too_slow": inconclusive.into_inner()})
 }
 
+/// Large numbers: (a) a message of 1 500 and of 3 000 fragments whose header arrives last, in the middle and second (every
+/// continuation above any internal chunk size arrives before it); (b) 300 sequences that expire together are all dropped by one
+/// sweep; (c) 70 abandoned sequences of 1 MiB each expire and are swept in turn - whatever the assembler accounted for them is
+/// released with them, and an ordinary message still completes afterwards.
+fn large_numbers(rep: &Report) {
+    for n in [1_500u64, 3_000] {
+        for header_at in [n - 1, n / 2, 1] {
+            rep.add("evaluations", 1);
+            let mut a = FragmentAssembler::with_timeout(Duration::from_secs(3600));
+            let part = |id: u64| vec![(id % 251) as u8, (id / 251) as u8];
+            let mut returned: Vec<(u64, usize)> = vec![];
+            let mut arrivals = 0u64;
+            let mut feed = |a: &mut FragmentAssembler, id: u64, returned: &mut Vec<(u64, usize)>, arrivals: &mut u64| {
+                let r = if id == n { a.start_fragment(5u64, n, None, part(n)) } else { a.add_fragment(5u64, id, part(id)) };
+                *arrivals += 1;
+                if let Some(b) = r { returned.push((*arrivals, b.len())); }
+            };
+            // continuations in descending order (n-1 .. 1), the header inserted after `header_at` of them
+            let mut sent_header = false;
+            for (k, id) in (1..n).rev().enumerate() {
+                if k as u64 == header_at && !sent_header { feed(&mut a, n, &mut returned, &mut arrivals); sent_header = true; }
+                feed(&mut a, id, &mut returned, &mut arrivals);
+            }
+            if !sent_header { feed(&mut a, n, &mut returned, &mut arrivals); }
+            if returned != vec![(n, 2 * n as usize)] || a.pending_count() != 0 {
+                rep.violation("a message of many fragments is not returned exactly once at its last fragment", json!({"fragments": n, "header_arrives_after_continuations": header_at, "returned_at_arrival_and_length": format!("{:?}", returned), "pending_afterwards": a.pending_count()}));
+            }
+        }
+    }
+    {
+        rep.add("evaluations", 1);
+        let mut a = FragmentAssembler::with_timeout(Duration::from_millis(60));
+        for s in 0..300u64 { let _ = if s % 2 == 0 { a.start_fragment(1000 + s, 3, None, vec![1]) } else { a.add_fragment(1000 + s, 1, vec![1]) }; }
+        std::thread::sleep(Duration::from_millis(250));
+        let dropped = a.cleanup_expired();
+        if dropped != 300 || a.pending_count() != 0 { rep.violation("an incomplete sequence older than the timeout is still held after cleanup", json!({"sequences_expired_together": 300, "dropped_by_one_sweep": dropped, "pending": a.pending_count()})); }
+    }
+    {
+        rep.add("evaluations", 1);
+        let mut a = FragmentAssembler::with_timeout(Duration::from_millis(30));
+        let mut lost: Option<u64> = None;
+        for s in 0..70u64 {
+            let _ = a.start_fragment(5000 + s, 2, None, vec![7u8; 1 << 20]);
+            std::thread::sleep(Duration::from_millis(45));
+            let _ = a.cleanup_expired();
+            // an ordinary two-fragment message in between
+            let r1 = a.start_fragment(9000 + s, 2, None, vec![1, 2]);
+            let r2 = a.add_fragment(9000 + s, 1, vec![3]);
+            if (r1.is_some() || r2.map(|b| b.len()) != Some(3)) && lost.is_none() { lost = Some(s); }
+        }
+        if lost.is_some() || a.pending_count() != 0 { rep.violation("a message is not returned at its last fragment once the assembler holds many incomplete entries", json!({"abandoned_sequences_of_1_MiB_swept_before": lost, "pending_at_the_end": a.pending_count(), "leftover_kind": "sequences that expired and were swept"})); }
+    }
+}
+
 /// Long runs through one assembler: 1 000 messages of two and three fragments, each on its own sequence id, while
 /// leftovers accumulate - a repeated continuation after every completed message (which opens an entry that never
 /// completes) or a neighbouring sequence that never gets its last fragment. Every message is returned exactly at its last
@@ -376,6 +430,7 @@ pub fn run(rep: &Report) -> serde_json::Value {
     constructors(rep);
     sequence_id_reuse(rep);
     long_runs(rep);
+    large_numbers(rep);
     let timed = timed_expiry(rep);
     rep.set_extra("timed_expiry", timed);
     let mut scenarios: Vec<(String, Scenario)> = vec![];
